@@ -30,6 +30,9 @@ pub enum Start {
     SemverTag(Canon),
     PepTag(gens::pep::PepV, gens::pep::Spelling),
     Stdin(MZerv),
+    /// an object on stdin plus `--tag-version`: the tag replaces every version field and
+    /// `last_tag_version`, nothing else (last_timestamp, hashes, branches, custom stay)
+    StdinTag(MZerv, Canon),
 }
 #[derive(Debug, Clone, Hash, Serialize, Deserialize)]
 pub enum Sel {
@@ -100,6 +103,21 @@ fn start_state(c: &Case) -> (MVars, Option<MSchema>, Vec<Flag>, Option<String>) 
         Start::Stdin(z) => {
             let text = z.to_zerv().map(|z| z.to_string()).ok();
             (z.vars.clone(), Some(z.schema.clone()), vec![], text)
+        }
+        Start::StdinTag(z, k) => {
+            let text = z.to_zerv().map(|z| z.to_string()).ok();
+            let tag = k.semver();
+            let n = |s: &String| s.parse::<u64>().ok();
+            let mut vars = z.vars.clone();
+            vars.major = n(&k.core[0]);
+            vars.minor = n(&k.core[1]);
+            vars.patch = n(&k.core[2]);
+            vars.epoch = k.epoch.as_ref().and_then(n);
+            vars.pre_release = k.pre.as_ref().map(|(l, x)| (*l, n(x)));
+            vars.post = k.post.as_ref().and_then(n);
+            vars.dev = k.dev.as_ref().and_then(n);
+            vars.last_tag_version = Some(tag.clone());
+            (vars, Some(z.schema.clone()), vec![Flag::v("tag-version", tag), Flag::v("input-format", "semver")], text)
         }
     }
 }
@@ -243,7 +261,7 @@ fn levels_touched(ops: &Ops) -> usize {
 /// F15 (fixed): `~n` index rejected by the early validator of --bump-* although documented
 fn check_case(c: &Case, cx: &mut Cx) -> Res {
     let (mut vars, stdin_schema, mut base_flags, stdin_text) = start_state(c);
-    if matches!(c.start, Start::Stdin(_)) && stdin_text.is_none() {
+    if matches!(c.start, Start::Stdin(_) | Start::StdinTag(..)) && stdin_text.is_none() {
         return fail("harness bug: generated stdin object is invalid");
     }
     apply_ctx(&mut vars, &c.ctx);
@@ -279,6 +297,7 @@ fn check_case(c: &Case, cx: &mut Cx) -> Res {
     cx.label_if(!ops.idx.is_empty(), "index-op");
     cx.label_if(matches!(expected, Outcome::Reject(_)), "model-rejects");
     cx.label_if(matches!(c.start, Start::Stdin(_)), "stdin-start");
+    cx.label_if(matches!(c.start, Start::StdinTag(..)), "stdin-start+tag-version");
     cx.note(|| format!("{argv1:?} -> {}", r1.describe().chars().take(200).collect::<String>()));
     if let cli::Run::Panic(p) = &r1 {
         return fail(format!("zerv panicked on {argv1:?}: {p}"));
@@ -408,6 +427,7 @@ pub fn case_strategy() -> BoxedStrategy<Case> {
         3 => canon_start().prop_map(Start::SemverTag),
         1 => (gens::pep::pepv(3), gens::pep::spelling()).prop_map(|(mut p, s)| { p.local = None; Start::PepTag(p, s) }),
         3 => zg::mzerv(true).prop_map(|mut z| { z.vars.epoch = z.vars.epoch.filter(|e| *e > 0); Start::Stdin(z) }),
+        1 => (zg::mzerv(true), canon_start()).prop_map(|(z, k)| Start::StdinTag(z, k)),
     ];
     (start, prop_oneof![3 => (0usize..16).prop_map(Sel::Fixed), 3 => zg::valid_schema().prop_map(Sel::Ron), 2 => Just(Sel::FromStdin)], ctx_strategy(), ops_strategy(), raw_idx(), any::<u64>())
         .prop_map(|(start, sel, ctx, ops, raw_idx, perm)| Case { start, sel, ctx, ops, raw_idx, perm })
